@@ -63,7 +63,7 @@ func c11ExecStress(sc c11Stress) string {
 			if n > are {
 				break
 			}
-			if time.Now().After(deadline) {
+			if deadlinePassed(deadline) {
 				return fmt.Sprintf("rebalance %d: stream did not reopen", i+1)
 			}
 			runtime.Gosched()
@@ -165,7 +165,7 @@ func c11ExecDynStress(sc c11DynStress) string {
 		bus.Publish(helpers.MembershipChangedBusEventName, &membership.Model{MemberNumber: num, TotalMembers: total})
 		dl := time.Now().Add(20 * time.Second)
 		for count("ARE") <= are {
-			if time.Now().After(dl) {
+			if deadlinePassed(dl) {
 				return fmt.Sprintf("round %d: no reopen after the announcement %d/%d", r, num, total)
 			}
 			runtime.Gosched()
